@@ -61,8 +61,11 @@ class Normalizer(metaclass=_NormalizerMeta):
     def visit_leaf(self, leaf):
         self._check_type_rules(leaf)
 
-        for rule in self._rule_value_instances.get(leaf.value, []):
-            rule.feed_node(leaf)
+        # The literal text of an f-string is not syntax, even if it looks like
+        # a keyword or an operator.
+        if leaf.type != 'fstring_string':
+            for rule in self._rule_value_instances.get(leaf.value, []):
+                rule.feed_node(leaf)
 
         return leaf.prefix + leaf.value
 
